@@ -186,6 +186,8 @@ def run(ctx):
             for FB in bodies_of_fn(P, path):
                 found = True
                 fs |= fields_touched(FB, ty)
+                if m in ('eq', 'cmp'):
+                    check_self_compare(ctx, FB, 'C10.3-logical-fields')
             if not ctx.anchor(found, path):
                 continue
             sets[m] = fs
@@ -302,3 +304,9 @@ def run(ctx):
                 ctx.ok('C10.4-no-rebuild', inst, 'clone of the whole identifier', ctx.where(CB, bb))
             else:
                 ctx.bad('C10.4-no-rebuild', inst, 'identifier is not carried over whole: %s' % (o,), ctx.where(CB, bb), key='PROV:%s:%s:not-whole' % (fn.rsplit('::', 1)[1], var))
+
+    # plain identifiers are rebuilt from their fields: the node atom must come out in the form it came in
+    ctx.rule('C10.2-node-atom-form', 'a plain (not node-local) identifier is re-encoded from its parsed fields, node atom included: the atom encoder picks the short form for every name that fits it, '
+             'so an identifier received from a current OTP peer (SMALL_ATOM_UTF8_EXT for names up to 255 bytes) is written back byte for byte', floor=1)
+    from ..etf import check_canonical_forms
+    check_canonical_forms(ctx, 'C10.2-node-atom-form')
